@@ -379,8 +379,8 @@ pub fn run(ctx: &mut Ctx) {
         ),
     );
     let ps: [f64; 6] = [1.0, 0.9, 0.5, 0.1, 0.01, 1e-4];
-    let n_cases = ctx.tier_pick(500u64, 6000);
-    let max_ops = ctx.tier_pick(20_000u64, 300_000);
+    let n_cases = ctx.tier_pick(500u64, 2000);
+    let max_ops = ctx.tier_pick(20_000u64, 150_000);
     // larger nominal sizes, one per shard: enough operations for a few rebuilds (table indices beyond 16 bits)
     {
         let lg_k = if ctx.quick() { 13 + (ctx.shard % 3) as u64 } else { 13 + (ctx.shard % 8) as u64 };
